@@ -160,6 +160,7 @@ class AsgiHttpPeer:
         self.body_chunks = []
         self.complete = False
         self.t_complete = None
+        self._timed_disconnect = disconnect_time is not None
         if disconnect_time is not None:
             loop.call_later(disconnect_time, self.disconnect_now, "timer")
 
@@ -185,15 +186,23 @@ class AsgiHttpPeer:
         if self.disconnect_delivered:
             self.recv_after_disconnect += 1
         async with self.recv_lock:
+            msg = None
             if self.pos < len(self.script):
                 m = self.script[self.pos]
                 extra = self.recv_lat_extra[self.tape.draw(len(self.recv_lat_extra))]
                 due = self._arrival[self.pos] + extra
                 now = self.loop.time()
-                if due > now:
-                    await asyncio.sleep(due - now)
-                self.pos += 1
-                msg = self._build(m)
+                gone = self.disconnected.done() and self.disc_why != "complete"
+                if due > now and not gone:
+                    gone = await self._sleep_or_gone(due - now)
+                if gone and m["type"] != "http.disconnect" and due > (self.t_disconnect if self.t_disconnect is not None else now):
+                    # the client went away before this part of the request body arrived: it never will
+                    self.pos = len(self.script)
+                else:
+                    self.pos += 1
+                    msg = self._build(m)
+            if msg is not None:
+                pass
             else:
                 if self.recv_raises_after_script:
                     self.ctx.fault("receive_channel_raises")
@@ -211,6 +220,17 @@ class AsgiHttpPeer:
             self.recv_returns.append((round(self.loop.time(), 6), msg["type"], len(msg.get("body", b"") or b"")))
             self.ctx.sch("recv", msg["type"], round(self.loop.time(), 6))
             return msg
+
+    async def _sleep_or_gone(self, d):
+        """Wait d seconds for the next scripted message; True if the client went away (not: response complete) meanwhile."""
+        if self.disc_why == "complete" or not (self.disconnect_after_sends is not None or self._timed_disconnect):
+            await asyncio.sleep(d)          # nothing can interrupt the wait: keep the plain timer (and its schedule)
+            return False
+        try:
+            await asyncio.wait_for(self._wait_disc(), d)
+        except asyncio.TimeoutError:
+            return False
+        return self.disc_why != "complete"
 
     async def _wait_disc(self):
         # wait without making the shared future cancel when one waiter is cancelled
